@@ -201,7 +201,7 @@ PROPS["C11"] = {
                 "schedules": {"1": "a lookup issued after Close had returned was routed to the removed target (its routes came back through an update that was in flight)",
                               "2": "re-Watch refused after Close returned, or accepted while still watched"}},
     "rule": "10 thread sets (pattern and service router): update-vs-close with lookups, two updates of one target with lookups, close + re-watch + update through the new watcher + stale update through the old one, two targets with overlapping services, double close; EVERY interleaving at the granularity of the verif yield points is enumerated by the extracted model and replayed on the real routers (goroutines parked at the yield points); quick tier samples evenly when a set has more than 70 schedules",
-    "level_text": "Coq theorems over all thread sets and all interleavings of the LTS: once Close(w) has executed its removal, no table entry applied through w exists or ever appears again (removed targets never come back), so no later lookup is routed to it; a name is re-watchable exactly after the removal; an update step never drops a route that is in its new description (no flicker); lookups read one atomically stored (target, description) pair. The pre-repair protocol (closed check outside the mutation) is refuted by a witness schedule. Tied to the code by replaying every model schedule on the real routers via the yield hooks and comparing every lookup.",
+    "level_text": "Coq theorems over all thread sets and all interleavings of the LTS: once Close(w) has executed its removal, no table entry applied through w exists or ever appears again (removed targets never come back), so no later lookup is routed to it - proved for the pattern router AND for the service router (two-phase updateRoutes under the table mutex, removal with hand-over: invariant over table entries, claim lists and recorded listings, with their watcher tags); a name is re-watchable exactly after the removal; an update step never drops a route that is in its new description (no flicker); lookups read one atomically stored (target, description) pair. The pre-repair protocol (closed check outside the mutation) is refuted by a witness schedule. Tied to the code by replaying every model schedule on the real routers via the yield hooks and comparing every lookup.",
     "level_note": "Trusted: Coq kernel, extraction, modelrun, Go replayer (goroutine parking via routing.VerifYieldHook, tag verif). Atomicity of atomic.Pointer, sync.Map and sync.Mutex is Go's. Hook commits in /repo are add-only.",
     "design_ref": "DESIGN.md §3 C11, appendix A.2",
     "assumptions": ["interleavings are at the granularity of the yield points (appendix A.2); finer-grained races are the race detector's (C18)"],
